@@ -40,6 +40,7 @@ class Exec:
         self.ref = None         # reference cache: pid -> object   (None = unknown, identity not required)
         self.flagged = set()    # pids whose cached object is_running() reported as recycled
         self.stale = {}         # pid -> the object found recycled by is_running()
+        self.seen_gone_then_recycled = {}
         self.viols = []
         self.label = ""
 
@@ -116,6 +117,7 @@ class Exec:
         elif k == "isr":
             pid = c.pid[ev[1]]
             obj, uid = self.held[pid]
+            was_gone = obj._gone
             out = outcome(obj.is_running)
             p = w.procs.get(pid)
             exp = p is not None and p.uid == uid
@@ -123,8 +125,13 @@ class Exec:
             if out != ("ok", exp):
                 self.viol("is_running", "is_running() of yielded object pid %d -> %r, expected %r" % (pid, out, exp))
             if out == ("ok", False) and p is not None and p.uid != uid:
-                self.flagged.add(pid)      # psutil has now *found* the pid recycled
-                self.stale[pid] = obj
+                if was_gone:
+                    # the object had already been seen gone while the pid was free; is_running() answers from
+                    # that cached fact and cannot notice the later recycling
+                    self.seen_gone_then_recycled[pid] = obj
+                else:
+                    self.flagged.add(pid)      # psutil has now *found* the pid recycled
+                    self.stale[pid] = obj
         elif k == "iter":
             lab = self.do_full_iter(ev[1])
         elif k == "gstart":
@@ -153,6 +160,9 @@ class Exec:
         ps, w = self.ps, self.w
         listed = self.listed()
         uids = {pid: w.procs[pid].uid for pid in listed}
+        pre_reused = set(ps._pids_reused)
+        pre_stale = {pid for pid, o in ps._pmap.items() if pid in w.procs and o._ident[1] is not None and
+                     o._ident[1] != w.procs[pid].start / CLK_TCK + w.btime}
         out = outcome(lambda: list(ps.process_iter(attrs=ATTRS[akey])))
         if out[0] != "ok":
             self.viol("iter-raised:%s" % out[1], "process_iter() raised %r" % (out,))
@@ -168,9 +178,9 @@ class Exec:
         if extra:
             self.viol("iter-extra", "yielded unlisted pids %r (listed %r)" % (extra, listed))
         if missing:
-            # cache entries that stand for a previous owner of a (recycled) pid
-            stale = [p for p in missing if p in self.flagged or
-                     (p in self.held and self.held[p][1] != uids[p] and ps_cached(self.held[p][0]))]
+            # cache entries that stood for a previous owner of a (recycled) pid when the iteration started
+            stale = [p for p in missing if p in self.flagged or p in pre_reused or p in pre_stale or
+                     (p in self.held and self.held[p][1] != uids[p])]
             if len(stale) == len(missing):
                 self.viol("iter-omits-recycled-pid-once",
                           "process_iter() did not yield listed pid(s) %r: the cached entry stood for the previous owner of the "
@@ -184,6 +194,10 @@ class Exec:
         overlapping = bool(self.gens)
         if not overlapping:
             for p in procs:
+                if self.seen_gone_then_recycled.get(p.pid) is p:
+                    self.viol("entry-seen-gone-then-pid-recycled-is-never-replaced",
+                              "pid %d: process_iter() keeps yielding a cached object whose is_running() is False for a pid that now "
+                              "belongs to a live process (the object was seen gone while the pid was free, no iteration ran in between)" % p.pid)
                 if self.stale.get(p.pid) is p:
                     self.viol("entry-found-recycled-is-yielded-again",
                               "pid %d: the object on which is_running() reported the recycling is yielded again by a later, "
@@ -215,6 +229,9 @@ class Exec:
                 self.held[p.pid] = (p, p._vf_uid)
         self.flagged -= set(pids)
         self.flagged &= set(listed)
+        # a complete iteration has now acted on every recycling found so far; what an overlapping generator
+        # writes back later is outside the statement (Reading: non-overlapping iterations only)
+        self.stale.clear()
         return lab
 
     def do_gnext(self, i):
@@ -298,6 +315,7 @@ class Exec:
         return {"slots": {s: (None if v is None else [v[0], rel[v[1]]]) for s, v in slots.items()},
                 "tid": c.tid in w.tids, "pmap": pm, "held": held, "gens": gens,
                 "reused": sorted(ps._pids_reused), "flagged": sorted(self.flagged),
+                "sgr": {pid: ps._pmap.get(pid) is o for pid, o in sorted(self.seen_gone_then_recycled.items())},
                 "stale": {pid: [ps._pmap.get(pid) is o, any(fl_pmap_has(st, pid, o) for st in self.gens)] for pid, o in sorted(self.stale.items())},
                 "ref": None if self.ref is None else sorted(self.ref)}
 
